@@ -305,6 +305,20 @@ func converterNarrowingIsRangeChecked(c *core.Ctx) {
 			helpers = append(helpers, fn)
 		}
 	}
+	// and the package-level functions that turn any Go value into a script value (FromGoType):
+	// what the converters do for a value of known type they do for one of unknown type
+	for _, fn := range repoFns(p, "object") {
+		if fn.Parent() != nil || fn.Signature.Recv() != nil || fn.Signature.Params().Len() != 1 || fn.Signature.Results().Len() != 1 {
+			continue
+		}
+		if it, ok := fn.Signature.Params().At(0).Type().Underlying().(*types.Interface); !ok || it.NumMethods() != 0 {
+			continue
+		}
+		if !core.IsNamed(fn.Signature.Results().At(0).Type(), pkgPath("object"), "Object") {
+			continue
+		}
+		helpers = append(helpers, fn)
+	}
 	n := 0
 	for _, fn := range append(append(append([]*ssa.Function{}, to...), from...), helpers...) {
 		var lossy []*ssa.Convert
